@@ -224,7 +224,8 @@ impl LuaDeclarationTree {
                 false
             }
             LuaScopeKind::LocalOrAssignStat => {
-                for child in scope.get_children() {
+                // closest first: with `local x, x = 1, 2` the last `x` shadows the first
+                for child in scope.get_children().iter().rev() {
                     if let ScopeOrDeclId::Decl(decl_id) = child
                         && f(decl_id.into())
                     {
